@@ -63,14 +63,15 @@ def handle (l : Line) : IO Unit := do
     let hxs := if r.ok && r.hex then fr (atofHex r.mant r.exp r.neg r.trunc) else "-"
     IO.println s!"obs {id} sp={sp} rf={rf} ex={ex} hx={hxs}"
     -- the mirrored slow path, and the self-check against the specified slow path of the model
-    let slm := match decSet num with
-      | none => "syntax"
+    let (slm, a) : String × FloatRes := match decSet num with
+      | none => ("syntax", ⟨0, some .syntax⟩)
       | some d =>
         let r := floatBits d
-        s!"{F64.toHex (F64.canonNaN r.bits)}:{if r.ovf then "range" else "ok"}:{b01 r.trunc}"
-    let a := slowPathMirror num
+        (s!"{F64.toHex (F64.canonNaN r.bits)}:{if r.ovf then "range" else "ok"}:{b01 r.trunc}",
+         ⟨r.bits, if r.ovf then some .range else none⟩)
     let b := slowPath num
-    let chk := if a.val == b.val && a.err == b.err then "ok" else s!"BAD:{fr a}:{fr b}"
+    -- (the slow path is reached only after `underscoreOK`; `d.set` alone skips every underscore)
+    let chk := if !underscoreOK num || (a.val == b.val && a.err == b.err) then "ok" else s!"BAD:{fr a}:{fr b}"
     IO.println s!"obs {id} sl={slm} chk={chk}"
     if l.getD "spec" == "1" then
       let sv := parseFloatSpec num
